@@ -1,6 +1,29 @@
-(* C18 — AtomicValue is an atomic register; Pool never hands one item to two users. *)
+(* C18 — AtomicValue is an atomic register; Pool never hands one item to two users.
+   Statements only; every proof is [exact] of a lemma of Sync/AtomicPoolProofs.v.
+
+   Quantifiers. AtomicValue: every value type V whose Go equality [eqb] decides
+   equality, every zero value, every number of goroutines (one entry of
+   [progs] each), every program (list of Load / Store / Swap / CompareAndSwap
+   calls) per goroutine, every schedule [s] : list (thread, coincide flag) of
+   the atomic steps of Sync/AtomicPool.v, of any length (entries naming a
+   disabled thread are skipped). Pool: with and without New, every number of
+   goroutines, every program (Get / Put of a held item / Put of a new item /
+   Put of the zero value), every schedule of thread steps with every choice
+   the runtime pool can make (hand out any bagged item, miss, drop any item).
+   atomic.Value and sync.Pool are the trusted abstract machines of
+   Sync/AtomicPool.v; in particular atomic.Value.CompareAndSwap is modelled as
+   the stdlib implements it (two steps, may fail spuriously), and the theorem
+   is about the wrapper's retry loop on top of it. Traces are newest first. *)
 From Typ Require Import Lib.Base Sync.AtomicPool Sync.AtomicPoolProofs.
 
+(* ---------------- AtomicValue ---------------- *)
+
+(* The specification the histories are compared with is the register of the
+   property text: Load returns the zero value before the first Store and
+   otherwise the value stored last (Swap and a successful CompareAndSwap store
+   too); Swap returns the value it replaced; once a value has been stored,
+   CompareAndSwap succeeds exactly when the current value equals old, and then
+   stores new, otherwise changes nothing. *)
 Theorem C18_spec_is_register : forall (V : Type) (zero : V) (eqb : V -> V -> bool),
   (forall x y, eqb x y = true <-> x = y) -> forall s : option V,
     spec_step zero eqb s OLoad = (s, RVal (or_zero zero s)) /\
@@ -11,3 +34,89 @@ Theorem C18_spec_is_register : forall (V : Type) (zero : V) (eqb : V -> V -> boo
        (c <> old -> spec_step zero eqb s (OCas old new) = (s, RBool false))).
 Proof. exact spec_register. Qed.
 Print Assumptions C18_spec_is_register.
+
+(* Every history (invocations and responses of the wrapper calls, in real-time
+   order) of every program under every schedule is linearizable to that
+   register: linearization marks can be placed, one inside each completed call
+   (and inside some pending ones), such that the marks in order are a legal
+   sequential run of the register and every response is the register's answer
+   at the call's mark ([lin_check], Sync/AtomicPool.v). *)
+Theorem C18_register_linearizable : forall (V : Type) (zero : V) (eqb : V -> V -> bool),
+  (forall x y, eqb x y = true <-> x = y) ->
+  forall (progs : list (list (op V))) (s : list (tid * bool)),
+    Linearizable zero eqb (ahistory (arun zero eqb (ainit progs) s)).
+Proof. exact register_linearizable. Qed.
+Print Assumptions C18_register_linearizable.
+
+(* The marks are the steps of the model that touch atomic.Value, and the
+   register they describe is what atomic.Value holds. *)
+Theorem C18_register_state : forall (V : Type) (zero : V) (eqb : V -> V -> bool),
+  (forall x y, eqb x y = true <-> x = y) ->
+  forall (progs : list (list (op V))) (s : list (tid * bool)),
+    exists st, lin_check zero eqb (rev (a_trace (arun zero eqb (ainit progs) s))) = Some st /\
+               l_spec st = prim_load (a_reg (arun zero eqb (ainit progs) s)).
+Proof. exact register_state. Qed.
+Print Assumptions C18_register_state.
+
+(* ---------------- Pool ---------------- *)
+
+(* Ownership: in every reachable configuration every token occurs at most
+   once over all places (the bag, every goroutine's hands, every call in
+   flight); a token some goroutine holds is not in the bag, and not held by any
+   other goroutine. *)
+Theorem C18_pool_ownership : forall (new : bool) (progs : list (list pop)) (s : list sitem) (v : val),
+  let c := prun (pinit new progs) s in
+  is_tok v ->
+  count_occ val_eq_dec (all_vals c) v <= 1 /\
+  (forall t th, nth_error (p_threads c) t = Some th -> In v (thread_vals th) -> ~ In v (p_bag c)) /\
+  (forall t1 t2 th1 th2, t1 <> t2 -> nth_error (p_threads c) t1 = Some th1 -> nth_error (p_threads c) t2 = Some th2 ->
+     In v (thread_vals th1) -> ~ In v (thread_vals th2)).
+Proof. exact pool_ownership. Qed.
+Print Assumptions C18_pool_ownership.
+
+(* What Get returns: the zero value when New is nil; or a result of New made
+   during this call that appears nowhere in the earlier trace; or an item the
+   pool handed out at a moment when it had been Put more often than handed
+   out or dropped, i.e. previously Put and not handed out since. *)
+Theorem C18_pool_get_returns : forall (new : bool) (progs : list (list pop)) (s : list sitem) later t v src before,
+  p_trace (prun (pinit new progs) s) = later ++ PERetGet t v src :: before ->
+  match src with
+  | SrcZeroNoNew => new = false /\ v = Zero
+  | SrcNew => new = true /\ (exists k, v = Tok t k) /\
+              exists mid older, before = mid ++ PENew t v :: older /\ forall e, In e older -> ev_val e <> Some v
+  | SrcBag => new = true /\
+              exists mid older, before = mid ++ PETake t v :: older /\
+                pcount (is_take v) older + pcount (is_drop v) older < pcount (is_put v) older
+  end.
+Proof. exact pool_get_returns. Qed.
+Print Assumptions C18_pool_get_returns.
+
+(* No step of Get or Put writes a shared plain field: the only plain accesses
+   are reads of the field New, which keeps its initial value for ever. *)
+Theorem C18_pool_no_plain_write : forall (new : bool) (progs : list (list pop)) (s : list sitem),
+  p_new (prun (pinit new progs) s) = new /\
+  forall t a, pool_next_access (prun (pinit new progs) s) t = Some a -> a = PlainRead FNew.
+Proof. exact (fun new progs s => conj (pool_new_constant new progs s) (pool_plain_accesses_are_reads _)). Qed.
+Print Assumptions C18_pool_no_plain_write.
+
+(* Non-vacuity. AtomicValue: goroutine 1 calls CompareAndSwap(5,7) while
+   goroutine 0 stores 5 twice; the second Store lands between the two steps of
+   atomic.Value.CompareAndSwap, whose pointer comparison therefore fails
+   although the value is 5 throughout; the wrapper's loop retries and succeeds.
+   The marked trace is accepted; a trace in which Load answers 4 right after
+   Store(5) is rejected by [lin_check]. Pool: goroutine 0 gets a new item and
+   puts it back, goroutine 1 then gets that very item and goroutine 0 a new one. *)
+Example C18_example :
+  let c := arun 0%Z Z.eqb (ainit [[OStore 5; OStore 5]; [OCas 5 7; OLoad]]%Z)
+             [(0,false);(0,false);(0,false);(1,false);(1,false);(0,false);(0,false);(1,false);
+              (1,false);(1,false);(1,false);(1,false);(1,false);(1,false);(1,false);(0,false)] in
+  map (@a_rets Z) (a_threads c) = [[RUnit; RUnit]; [RBool true; RVal 7%Z]] /\
+  prim_load (a_reg c) = Some 7%Z /\
+  lin_check 0%Z Z.eqb (rev (a_trace c)) <> None /\
+  lin_check 0%Z Z.eqb [EvInv 0 (OStore 5%Z); EvLin 0; EvRes 0 RUnit; EvInv 1 OLoad; EvLin 1; EvRes 1 (RVal 4%Z)] = None /\
+  let p := prun (pinit true [[PGet; PPutHeld 0; PGet]; [PGet]])
+             [SThr 0 Miss; SThr 0 Miss; SThr 0 Miss; SThr 0 Miss; SThr 0 Miss; SThr 0 Miss; SThr 0 Miss;
+              SThr 1 Miss; SThr 1 Miss; SThr 1 (Take 0); SThr 1 Miss;
+              SThr 0 Miss; SThr 0 Miss; SThr 0 Miss; SThr 0 Miss; SThr 0 Miss] in
+  map p_got (p_threads p) = [[Tok 0 0; Tok 0 1]; [Tok 0 0]] /\ p_bag p = [].
+Proof. vm_compute. repeat split; discriminate. Qed.
